@@ -29,6 +29,7 @@ import Driver.LedgerNode
 import Driver.VdbCache
 import Driver.Translated
 import Driver.Accept
+import Driver.CodecRlpTyped
 /-
 One line per handler object. The first handler that understands a line answers it.
 -/
@@ -74,7 +75,8 @@ def registry : List Obj := [
   mkObj ({} : PmSt) pmStep,
   ledgerNodeObj,
   vcObj,
-  pureObj pureAccept
+  pureObj pureAccept,
+  pureObj pureRlpTyped
 ]
 
 end ZV.Driver
